@@ -53,7 +53,10 @@ Definition count_spaces_after_last_newline (s : str) (i : N) : res N :=
 (* get_node_cover_range_impl: first node in post-order that covers [rs, re) and is a Markup, Expr or Pattern *)
 Definition mode_of_kind (k : kind) (m : lmode) : lmode :=
   match k with KMarkup => LMarkup | KCodeBlock => LCode | KEquation => LMath | _ => m end.
-Definition coverable (t : tree) : bool := kind_eqb (kind_of t) KMarkup || is_expr t || is_pattern t.
+(* a Parbreak casts to Expr but is never the node to format: the blanks after its last line feed are the
+   indentation of what follows *)
+Definition coverable (t : tree) : bool :=
+  negb (kind_eqb (kind_of t) KParbreak) && (kind_eqb (kind_of t) KMarkup || is_expr t || is_pattern t).
 
 (* the result also carries the kind of the node's parent (None for the root) *)
 Fixpoint cover (t : tree) (off : N) (m : lmode) (parent : option kind) (rs re : N) : option (tree * N * lmode * option kind) :=
@@ -97,7 +100,8 @@ Section Partial.
         | Some (node, off, mode, parent) =>
             if erroneous node then RErr
             else
-              let c := mk_ctx mode false in
+              (* everything below a Math node is laid out with breaks suppressed (convert_math) *)
+              let c := mk_ctx mode (is_math_mode mode && negb (kind_eqb (kind_of node) KEquation)) in
               let bundle := build swidth cfg (annotate node) in
               let m :=
                 if kind_eqb (kind_of node) KMarkup then call bundle (RMarkup c ScDocument)
